@@ -56,3 +56,42 @@ func HarnessEventSet() {
 		}
 	}
 }
+
+// HarnessEventBackToBack: `fires` back-to-back Fire calls with two listeners (one of which may
+// leave between two of them); all notification goroutines are still queued and then run in ANY
+// order.  Every listener that stayed ends up with the value of the last Fire, no listener ever
+// sees an older value after a newer one, and a listener that left before a Fire never gets it.
+func HarnessEventBackToBack() {
+	fires := vParam("fires", 3)
+	e := New[int]()
+	var last [2]int
+	var regress [2]bool
+	var unsubs [2]Unsubscribe
+	for i := 0; i < 2; i++ {
+		unsubs[i] = e.Subscribe(func(v int) {
+			if v < last[i] {
+				regress[i] = true
+			}
+			last[i] = v
+		})
+	}
+	leaveBefore := symChoice(fires + 1) // listener 1 leaves before Fire number leaveBefore (0-based); == fires: stays
+	for f := 0; f < fires; f++ {
+		if f == leaveBefore {
+			unsubs[1]()
+			vReach("left-between-fires")
+		}
+		e.Fire(f + 1)
+	}
+	for vPendingCount() > 0 {
+		vRunPendingAt(symChoice(vPendingCount()))
+	}
+	vReach("all-delivered")
+	vAssert(last[0] == fires, "c19.back-to-back.listener-not-at-the-latest-value")
+	vAssert(!regress[0] && !regress[1], "c19.back-to-back.older-value-delivered-after-newer")
+	if leaveBefore == fires {
+		vAssert(last[1] == fires, "c19.back-to-back.listener-not-at-the-latest-value")
+	} else {
+		vAssert(last[1] <= leaveBefore, "c19.shut-down-listener-notified")
+	}
+}
